@@ -19,6 +19,34 @@ Definition eds_of (s : strategy) (name_set : bool) : eds :=
 Definition validate_code (s : strategy) : N :=
   match validate s with Ok _ => 0%N | Error c => c | Panic _ => 99%N end.
 
+(** "defaulting changes no value the user set": every field present in the input has the same value in the output
+    (the boolean reading of [C16_preserves]) *)
+Definition kept {A} (eqb : A -> A -> bool) (a b : option A) : bool :=
+  match a with Some x => match b with Some y => eqb x y | None => false end | None => true end.
+Definition preserved_b (s s' : strategy) : bool :=
+  kept intorpct_eqb (ru_max_unavailable (st_rolling s)) (ru_max_unavailable (st_rolling s')) &&
+  kept intorpct_eqb (ru_max_sched_failure (st_rolling s)) (ru_max_sched_failure (st_rolling s')) &&
+  kept Z.eqb (ru_max_parallel (st_rolling s)) (ru_max_parallel (st_rolling s')) &&
+  kept Z.eqb (ru_interval (st_rolling s)) (ru_interval (st_rolling s')) &&
+  kept intorpct_eqb (ru_increase (st_rolling s)) (ru_increase (st_rolling s')) &&
+  kept Z.eqb (st_freq s) (st_freq s') &&
+  match st_canary s, st_canary s' with
+  | None, None => true
+  | Some c, Some c' =>
+      kept intorpct_eqb (ca_replicas c) (ca_replicas c') && kept Z.eqb (ca_duration c) (ca_duration c') &&
+      kept selector_eqb (ca_nodesel c) (ca_nodesel c') && kept Z.eqb (ca_norestarts c) (ca_norestarts c') &&
+      (vmode_eqb (ca_mode c) VUnset || vmode_eqb (ca_mode c') (ca_mode c)) &&
+      match ca_autopause c, ca_autopause c' with
+      | Some a, Some a' => kept Bool.eqb (ap_enabled a) (ap_enabled a') && kept Z.eqb (ap_max_restarts a) (ap_max_restarts a') &&
+                           option_eqb Z.eqb (ap_max_slow_start a') (ap_max_slow_start a)
+      | None, _ => true | Some _, None => false end &&
+      match ca_autofail c, ca_autofail c' with
+      | Some a, Some a' => kept Bool.eqb (af_enabled a) (af_enabled a') && kept Z.eqb (af_max_restarts a) (af_max_restarts a') &&
+                           option_eqb Z.eqb (af_max_restarts_dur a') (af_max_restarts_dur a) && option_eqb Z.eqb (af_timeout a') (af_timeout a)
+      | None, _ => true | Some _, None => false end
+  | _, _ => false
+  end.
+
 Definition chk (c : case) : list N :=
   match c with
   | W accepted (CErs sn obs) =>
@@ -48,6 +76,7 @@ Definition chk (c : case) : list N :=
       (* defaulting fills every field the reconcilers dereference: the model's list of them, on the implementation's output *)
       code_if (vmode_eqb mode VUnset || panic || is_defaulted (MkEds 1%N 1%N (MkAnnots AAbsent AAbsent AAbsent None AAbsent None None)
                                                                 dummy_tmpl 1%N on None od dummy_status)) 14 ++
+      code_if (panic || preserved_b s od) 18 ++                 (* no value the user set is changed *)
       code_if (negb (N.eqb v 99)) 13                            (* validation does not crash *)
   end.
 Definition run (cs : list case) : list (N * N) := run_cases chk 0%N cs.
